@@ -6,6 +6,7 @@ import MxModel.Proofs.ExecInputsRun
 import MxModel.Proofs.ExecResolveSM
 import MxModel.Proofs.ExecCertExamples
 import MxModel.Proofs.EditMachineInputs
+import MxModel.Proofs.EditMachineGlobalsExamples
 /-!
 # C02 – no stale value survives any edit
 
@@ -958,6 +959,163 @@ example :
     (Edit.run Edit.eP {} ops).ex.data = [] ∧
     Edit.answer Edit.eP (Edit.run Edit.eP {} ops) ["Sub2"] "f" [] = some (.ok (.int 10)) ∧
     Edit.stepCovered Edit.eP (Edit.run Edit.eP {} (ops.take 5)) (.struct (.setRef ["Base"] "y" 5)) = true := by
+  decide
+
+/-! ## Structural edits with MODEL-LEVEL REFERENCES (`Edit.OpG` / `Edit.stepG`)
+
+The machine of the section above plus `model.x = v` / `del model.x` and the shadowing of model-level
+references: a reference is identified by the ATTRIBUTE SLOT `(space, name)` it is reached through
+(`Edit.refPay`: the own / derived reference of the space, otherwise – no cells of the name – the model-level
+one); sources may read declared slots through attribute paths (`S.x`, `_space.x`: `Edit.Tabs.slots`).
+`Edit.clearingG = clearing ++ shadowClears` (the `clear_attr_referrers(global_refs[name])` of
+`on_create_ref` and of `UserSpaceImpl.on_inherit`, /repo 5b95fbf and cdc3def), `Edit.globalClearing`
+(`ModelImpl.new_ref / change_ref / del_ref`).  `Edit.CIG` = `Edit.CIW` without "no model-level reference".
+
+One exemption, the one the Boolean `Edit.covered` makes too: a slot `(S, x)` that shows the model-level `x`
+when the space `S` is DELETED (`Edit.Orphaned`; an attribute path through a deleted space is an
+object-valued reference to a deleted space – C10's subject, not in the machine):
+`Edit.NoOrphanReaders` – at a `del space` step nothing held was read from a model-level reference through
+a deleted space – is a hypothesis of the step theorem and part of `Edit.AdmissibleG`. -/
+
+/-- **`model.x = v` / `del model.x`: the clearing covers** – every cells of every space is notified, every
+slot through which the model-level reference was seen is reader-free.  No hypothesis. -/
+theorem global_edit_clearing_covers (t : Edit.Tabs) (st : SM.St) (x : String) :
+    Edit.CoversGlobal t st x (Edit.globalClearing t st x) :=
+  Edit.coversGlobal_globalClearing t st x
+
+/-- the Boolean `Edit.coveredGlobal` (evaluated by the driver at every `set_mref` / `del_mref`) says the same -/
+theorem coveredGlobal_check_sound (t : Edit.Tabs) (st : SM.St) (x : String) (cl : List Edit.Clear)
+    (h : Edit.coveredGlobal t st x cl = true) : Edit.CoversGlobal t st x cl :=
+  Edit.coveredGlobal_sound t st x cl h
+
+/-- **The clearing reaches every change, model-level references and declared slots present** – for all ten
+structural operations, from the structural invariant alone.  `Edit.CoversS`: the clauses of `Edit.Covers`
+(namespaces, entries of cells) and the SLOT clauses: a slot `(q, x)` that denotes another reference / value
+than before – a reference or a cells `x` appears in or vanishes from `q` over a model-level `x`, a
+reference entry changes – has the cells of `q` notified and, if it denoted something, its recorded readers
+cleared (`clear_attr_referrers`), or belongs to a space the step deletes (`Edit.Orphaned`). -/
+theorem clearing_covers_every_change_with_globals (P : Edit.Params) (w : Edit.W) (o : SM.Op) (hi : SM.Inv w.sm)
+    (ha : Edit.AllocOK w.tabs w.sm) (hsup : Edit.supported o = true)
+    (st' : SM.St) (hop : w.sm.apply P.kw o = some st') :
+    Edit.CoversS (w.tabs.grow st') w.sm st' (Edit.clearingG P.kw (w.tabs.grow st') w.sm st' o) :=
+  Edit.coversS_clearingG P.kw _ o hi hsup hop (Edit.allocOK_grow w.tabs st' ha.slots)
+
+/-- **`machineG_keeps_ci`: every operation of the machine with model-level references keeps the
+invariant** – the ten structural operations with `clearingG`, `model.x = v`, `del model.x`, evaluations,
+assignments, clearings – for the definitions of the NEW structure. -/
+theorem machineG_keeps_ci (P : Edit.Params) (lt : Node → Node → Prop) (ho : StrictOrder lt) (w : Edit.W)
+    (op : Edit.OpG) (hw : WF (w.env P) lt) (h : Edit.CIG P lt w) (horph : Edit.NoOrphanReaders P w op) :
+    Edit.CIG P lt (Edit.stepG P w op) :=
+  Edit.stepG_cig ho w op hw h horph
+
+/-- the two operations on model-level references need no hypothesis beyond the regime -/
+theorem global_edits_keep_ci (P : Edit.Params) (lt : Node → Node → Prop) (w : Edit.W) (x : String) (v : Nat)
+    (hw : WF (w.env P) lt) (h : Edit.CIG P lt w) :
+    Edit.CIG P lt (Edit.stepG P w (.setGlobal x v)) ∧ Edit.CIG P lt (Edit.stepG P w (.delGlobal x)) :=
+  ⟨Edit.stepG_setGlobal_cig w x v hw h, Edit.stepG_delGlobal_cig w x hw h⟩
+
+/-- every state reached from the empty model with the declared slots `slots` -/
+theorem machineG_reachable_ci (P : Edit.Params) (lt : Node → Node → Prop) (ho : StrictOrder lt)
+    (slots : List (SM.Path × String)) (ops : List Edit.OpG) (hadm : Edit.AdmissibleG P lt (Edit.W.init slots) ops) :
+    Edit.CIG P lt (Edit.runG P (Edit.W.init slots) ops) ∧ WF ((Edit.runG P (Edit.W.init slots) ops).env P) lt :=
+  Edit.runG_cig ho ops _ (Edit.wf_init P lt slots) (Edit.cig_init P lt slots) hadm
+
+/-- **C02 for histories with model-level references: every value held in any reachable state is the
+denotation under the CURRENT structure and the CURRENT model-level references** – whatever was
+evaluated before the edits, through whatever spelling (`x`, `_space.x`, `S.x`). -/
+theorem no_stale_value_after_any_history_with_globals (P : Edit.Params) (lt : Node → Node → Prop)
+    (ho : StrictOrder lt) (slots : List (SM.Path × String)) (ops : List Edit.OpG)
+    (hadm : Edit.AdmissibleG P lt (Edit.W.init slots) ops) :
+    Good ((Edit.runG P (Edit.W.init slots) ops).env P) (inpOf (Edit.runG P (Edit.W.init slots) ops).ex)
+      (Edit.runG P (Edit.W.init slots) ops).ex :=
+  (machineG_reachable_ci P lt ho slots ops hadm).1.ci.good
+
+/-- **The headline with model-level references**: the value a later call returns equals the value
+returned by the model that ran the same history with every evaluation removed.  Hypotheses about the live
+run only. -/
+theorem live_equals_edits_only_with_globals (P : Edit.Params) (lt : Node → Node → Prop) (ho : StrictOrder lt)
+    (slots : List (SM.Path × String)) (ops : List Edit.OpG) (hadm : Edit.AdmissibleG P lt (Edit.W.init slots) ops)
+    (q : SM.Path) (n : String) (key : Key) (v v' : Val)
+    (h1 : Edit.answer P (Edit.runG P (Edit.W.init slots) ops) q n key = some (.ok v))
+    (h2 : Edit.answer P (Edit.runG P (Edit.W.init slots) (Edit.noEvalsG ops)) q n key = some (.ok v')) : v = v' := by
+  have hr0 : RgNoInputs (Edit.W.init slots).ex := fun e he => by simp [Edit.W.init] at he
+  have hno : ∀ r, Edit.NoRg (Edit.W.init slots).ex r := fun r m hm => by simp [Edit.W.init] at hm
+  obtain ⟨hs, c1, c2, hwf⟩ := Edit.runG_sim ho ops _ _ (Edit.wf_init P lt slots) (Edit.cig_init P lt slots)
+    (Edit.cig_init P lt slots) hr0 hr0 ⟨rfl, rfl, rfl⟩ hadm hno
+  have henv := hs.env_eq P
+  unfold Edit.answer at h1 h2
+  split at h1
+  · split at h2
+    · simp only [Option.some.injEq] at h1 h2
+      rw [henv, hs.tabs] at h2
+      have a := (C01.eval_value_is_denotation_nocatch_partial _ _ hwf.noCatch _ _ c1.ci.good).1 v h1
+      have hg2 : Good ((Edit.runG P (Edit.W.init slots) ops).env P) (inpOf (Edit.runG P (Edit.W.init slots) ops).ex)
+          (Edit.runG P (Edit.W.init slots) (Edit.noEvalsG ops)).ex := by
+        have := c2.ci.good
+        rw [henv, hs.inp] at this
+        exact this
+      have b := (C01.eval_value_is_denotation_nocatch_partial _ _ hwf.noCatch _ _ hg2).1 v' h2
+      have := Den_det _ _ _ _ _ a b
+      cases this; rfl
+    · cases h2
+  · cases h1
+
+/-- how the hypotheses are guaranteed: sources that read references through attribute paths only, call
+nothing and catch nothing, and a history that deletes no space -/
+theorem histories_admissibleG_from_sources (P : Edit.Params) (lt : Node → Node → Prop) (ho : StrictOrder lt)
+    (hnc : ∀ v key, Edit.NsNoCatch (P.srcOf v key)) (hao : ∀ v key, Edit.NsAttrOnly (P.srcOf v key))
+    (hcalls : ∀ v key, Edit.NsNoCalls (P.srcOf v key)) (slots : List (SM.Path × String)) (ops : List Edit.OpG)
+    (hnd : ∀ op ∈ ops, Edit.isDelSpace op = false) : Edit.AdmissibleG P lt (Edit.W.init slots) ops :=
+  Edit.admissibleG_of_sources P lt ho hnc hao hcalls ops _ hnd (Edit.cig_init P lt slots)
+
+/-! Non-vacuity (`Proofs/EditMachineGlobalsExamples.lean`, `Edit.gOps`): `m.x = 1`; `B.x = 5`; `T.c` is
+`lambda: S.x` (the declared slot `(S, x)`); `T.c()` is 1 and is held; `S.add_bases(B)`: `S.x` is now the
+reference derived from `B` – `UserSpaceImpl.on_inherit` clears the readers of the model-level `x`
+(`shadowClears`: identities 0 = slot `(S, x)` and 2 = slot `(T, x)`), nothing is held; `T.c()` is 5, and so
+answers the model that only saw the edits.  The history is admissible, the invariant holds at its end. -/
+example : Edit.CIG Edit.gP idLt (Edit.runG Edit.gP (Edit.W.init Edit.gSlots) Edit.gOps) :=
+  (machineG_reachable_ci Edit.gP idLt idLt_strict Edit.gSlots Edit.gOps Edit.gOps_admissible).1
+
+example : Good ((Edit.runG Edit.gP (Edit.W.init Edit.gSlots) Edit.gOps).env Edit.gP)
+    (inpOf (Edit.runG Edit.gP (Edit.W.init Edit.gSlots) Edit.gOps).ex) (Edit.runG Edit.gP (Edit.W.init Edit.gSlots) Edit.gOps).ex :=
+  no_stale_value_after_any_history_with_globals Edit.gP idLt idLt_strict Edit.gSlots Edit.gOps Edit.gOps_admissible
+
+example : Edit.answer Edit.gP (Edit.runG Edit.gP (Edit.W.init Edit.gSlots) (Edit.gOps.take 6)) ["T"] "c" [] = some (.ok (.int 1)) ∧
+    (Edit.runG Edit.gP (Edit.W.init Edit.gSlots) (Edit.gOps.take 7)).ex.data = [((0, []), .int 1)] ∧
+    Edit.clearingG [] (Edit.runG Edit.gP (Edit.W.init Edit.gSlots) (Edit.gOps.take 8)).tabs
+      (Edit.runG Edit.gP (Edit.W.init Edit.gSlots) (Edit.gOps.take 7)).sm
+      (Edit.runG Edit.gP (Edit.W.init Edit.gSlots) (Edit.gOps.take 8)).sm (.addBases ["S"] [["B"]]) =
+        [.ns [], .attr 0, .attr 2] ∧
+    (Edit.runG Edit.gP (Edit.W.init Edit.gSlots) (Edit.gOps.take 8)).ex.data = [] ∧
+    Edit.answer Edit.gP (Edit.runG Edit.gP (Edit.W.init Edit.gSlots) Edit.gOps) ["T"] "c" [] = some (.ok (.int 5)) ∧
+    Edit.answer Edit.gP (Edit.runG Edit.gP (Edit.W.init Edit.gSlots) (Edit.noEvalsG Edit.gOps)) ["T"] "c" [] =
+      some (.ok (.int 5)) := by
+  decide
+
+example (v v' : Val)
+    (h1 : Edit.answer Edit.gP (Edit.runG Edit.gP (Edit.W.init Edit.gSlots) Edit.gOps) ["T"] "c" [] = some (.ok v))
+    (h2 : Edit.answer Edit.gP (Edit.runG Edit.gP (Edit.W.init Edit.gSlots) (Edit.noEvalsG Edit.gOps)) ["T"] "c" [] =
+      some (.ok v')) : v = v' :=
+  live_equals_edits_only_with_globals Edit.gP idLt idLt_strict Edit.gSlots Edit.gOps Edit.gOps_admissible
+    ["T"] "c" [] v v' h1 h2
+
+/-- the decidable checks agree with the theorems on that history: `model.x = 1` and the `add_bases` step -/
+example : Edit.stepCoveredG Edit.gP (Edit.W.init Edit.gSlots) (.setGlobal "x" 1) = true ∧
+    Edit.stepCoveredG Edit.gP (Edit.runG Edit.gP (Edit.W.init Edit.gSlots) (Edit.gOps.take 7))
+      (.op (.struct (.addBases ["S"] [["B"]]))) = true := by
+  decide
+
+/-- **The negative witness** (kernel-checked): WITHOUT the clearing `UserSpaceImpl.on_inherit` performs
+since /repo 5b95fbf (`Edit.clearingPre`: only `on_create_ref` clears the readers of a shadowed model-level
+reference) the coverage obligation FAILS on that history at the `add_bases` step – exactly where the
+defect was – and the machine with that clearing keeps the stale 1 for `T.c()` although the slot `(S, x)`
+now denotes 5. -/
+theorem coverage_fails_without_on_inherit_shadow_clearing :
+    Edit.stepCoveredPre Edit.gP (Edit.runG Edit.gP (Edit.W.init Edit.gSlots) (Edit.gOps.take 7))
+      (.addBases ["S"] [["B"]]) = false ∧
+    (Edit.stepPre Edit.gP (Edit.runG Edit.gP (Edit.W.init Edit.gSlots) (Edit.gOps.take 7))
+      (.addBases ["S"] [["B"]])).ex.data = [((0, []), .int 1)] ∧
+    Edit.answer Edit.gP (Edit.runG Edit.gP (Edit.W.init Edit.gSlots) Edit.gOps) ["T"] "c" [] = some (.ok (.int 5)) := by
   decide
 
 end MxModel.C02
